@@ -39,6 +39,14 @@ def key_programs():
                          [pipeline("TOP", "", "map<int> o",
                                    [call("G"), call("A", binds={"x": split(ref("G", "m"))}, mode="map")],
                                    {"o": ref("A", "y")})], "TOP", {}))
+    # a SPLITTING stage mapped over keys that differ from their journal-safe form (split and
+    # join jobs have journal names of their own)
+    for nm, keys in (("keys_split_odd", ["a.b", "a b", "\u00e9", "%C3%A9", "%2E"]), ("keys_split_plain", ["k1", "k2"])):
+        P.append(program(nm, [], [stage("G", "", "map<int[]> m", {"m": const({k: [i + 1, i + 2] for i, k in enumerate(keys)})}),
+                                  shapes.S_split("S")],
+                         [pipeline("TOP", "", "map<int[]> o",
+                                   [call("G"), call("S", binds={"xs": split(ref("G", "m"))}, mode="map")],
+                                   {"o": ref("S", "ys")})], "TOP", {}))
     # arrays whose length crosses the decimal width boundary, with a splitting stage
     for n in (10, 11):
         P.append(program("arr%d" % n, [], [stage("G", "", "int[] ys", {"ys": const(list(range(n)))}),
